@@ -31,6 +31,14 @@ theorem verdict : (classify Generated.factsC23).Sound (Holds (cfgOf Generated.fa
 #print axioms refutes_nameDropped
 #print axioms nameDropped_partial
 #print axioms keepPartial_partial
+#print axioms migrate_rerun_completes
+#print axioms migrate_twice
+#print axioms migrate_durable_before_delete
+#print axioms Hv.Migrate.sameTarget_sound
+#print axioms Hv.Migrate.sameTarget_written
+#print axioms refutes_refusesEqual
+#print axioms refutes_noSync
+#print axioms good_finishes_rerun
 #print axioms migrate_existing_kept
 #print axioms migrate_no_silent_drop
 #print axioms refutes_appendsExisting
